@@ -43,9 +43,12 @@ delivery made by `handle_input`, acknowledgements included: each call may send o
 says when) — first in its results, it changes only the sender's serializer — the application forwards it
 with the other packets, and the call that receives it raises its event before anything else and is
 otherwise unaffected (`C02_ack_changes_nothing`); apart from those packets and events the results are
-exactly the ones above, for ANY window sizes.  NOT a theorem: schedules in which the application holds
-packets back or delivers the two directions concurrently (the workflow is request/response; the `interop`
-family runs random interleavings on the real code).  Omitted droppable packets at `handle_input` level:
+exactly the ones above, for ANY window sizes.  The invariant behind them (`AckFlow.InStepP`: in step up to
+what each side has emitted and the application has not yet delivered) is kept by EVERY action of every
+schedule at packet granularity: an emission on either side (`InStepP.client_emits`, `server_emits`) and the
+delivery, in either direction, of ANY prefix of what is pending (`C02_deliver_any_prefix_*`: the application
+may hold packets back); byte granularity is C15.  NOT a theorem: the workflow's *events* under schedules
+other than the request/response one (the `interop` family runs random interleavings on the real code).  Omitted droppable packets at `handle_input` level:
 `C02_publish_items_in_mask`, `C02_play_items_in_mask` (acknowledgements travel first and are kept; of the
 item packets ANY subset of the droppable ones is left out; exactly the delivered items are raised).  Metadata items: `C02_publish_metadata_item`,
 `C02_play_metadata_item` — exactly one metadata event carrying the sender's metadata, for every metadata
@@ -619,5 +622,23 @@ theorem C02_play_items_in_mask {c : Cli.State} {v v' : Srv.State} {sid : Nat} {a
       Cli.handleInput c now (B.bytes ++ wire kept) = (c', .ok (B'.outC ++ B.evC ++ (msgs kept).flatMap Interop.evOfC)) ∧
       PlayReadyP c' v' sid app key (A ++ B') [] :=
   AckDrop.play_items_in_mask hr items ps now mask hts hsend
+
+/-- the application may hold packets back: delivering ANY prefix of what is pending keeps the pair in step, with the
+    rest still pending (server receiving; Lemmas/AckFlow.lean) -/
+theorem C02_deliver_any_prefix_to_server {c : Cli.State} {v : Srv.State} {X1 X2 Y : List (Ser.Packet × Msg)} (now : Nat)
+    (h : InStepP c v (X1 ++ X2) Y) :
+    ∃ (A : Acks) (v1 : Srv.State) (since' : Nat), A.ok ∧ Emit.Emits v.ser v1.ser A.pairs ∧ v1 = { v with ser := v1.ser } ∧
+      ∀ sF rs Z, SrvSteps.steps { v1 with since := since' } now (msgs X1) = .ok (sF, rs) → Emit.Emits v1.ser sF.ser Z →
+        ∃ vN, Srv.handleInput v now (wire X1) = (vN, .ok (A.outS ++ rs)) ∧ vN = { sF with des := vN.des } ∧
+          InStepP c vN X2 (Y ++ A.pairs ++ Z) :=
+  AckFlow.srv_deliver_prefix now h
+
+theorem C02_deliver_any_prefix_to_client {c : Cli.State} {v : Srv.State} {X Y1 Y2 : List (Ser.Packet × Msg)} (now : Nat)
+    (h : InStepP c v X (Y1 ++ Y2)) :
+    ∃ (A : Acks) (c1 : Cli.State) (since' : Nat), A.ok ∧ Emit.Emits c.ser c1.ser A.pairs ∧ c1 = { c with ser := c1.ser } ∧
+      ∀ sF rs Z, CliSteps.steps { c1 with since := since' } now (msgs Y1) = .ok (sF, rs) → Emit.Emits c1.ser sF.ser Z →
+        ∃ cN, Cli.handleInput c now (wire Y1) = (cN, .ok (A.outC ++ rs)) ∧ cN = { sF with des := cN.des } ∧
+          InStepP cN v (X ++ A.pairs ++ Z) Y2 :=
+  AckFlow.cli_deliver_prefix now h
 
 end Rml.C02
